@@ -256,6 +256,16 @@ class BuiltinMixin(object):
             ctx.set_list_len(new, ctx.list_len(v))
             ctx.set_list_arr(new, b.args[0], ctx.list_arr(v, b.args[0]))
             return new
+        if b.kind == "ref":
+            # copy.copy of a plain object (no __copy__/__reduce__/__getstate__/__slots__ in its class - checked natively by
+            # the caller's sidecar note): a fresh object of the same class with the same field values
+            from .core import REG
+            fields = [(f, fty) for (cn, f), fty in list(REG.fields.items()) if cn == b.name]
+            if fields:
+                new = ctx.alloc(Ty("ref", name=b.name))
+                for f, fty in fields:
+                    ctx.write_field(new, f, fty, ctx.read_field(v, f, fty))
+                return new
         raise VerifError("copy of %r" % (v,))
 
     def list_method(self, m, lst, args, spec):
